@@ -14,6 +14,7 @@ import (
 	"sync"
 	"time"
 
+	k8sworkqueue "k8s.io/client-go/util/workqueue"
 	"sigs.k8s.io/controller-runtime/pkg/client"
 	"sigs.k8s.io/controller-runtime/pkg/event"
 
@@ -27,15 +28,20 @@ type VerifWatchers struct {
 	w        *watchers
 	handlers []*hdlr
 	q        *verifQueue
+	// rq receives the notifications of the handlers: the recording queue q, or the
+	// controller's own queue (see VerifNewQueueReconciler)
+	rq k8sworkqueue.TypedRateLimitingInterface[rparam]
 }
 
 // VerifNewWatchers ...
 func VerifNewWatchers(ctx context.Context, cfg *config.Config, val services.IsValidResource) *VerifWatchers {
 	w := createWatchers(ctx, cfg, val)
+	q := &verifQueue{}
 	return &VerifWatchers{
 		w:        w,
 		handlers: w.getHandlers(),
-		q:        &verifQueue{},
+		q:        q,
+		rq:       q,
 	}
 }
 
@@ -60,7 +66,7 @@ func (v *VerifWatchers) Dispatch(ev string, oldObj, newObj client.Object) bool {
 				}
 			}
 			if pass {
-				h.Create(ctx, e, v.q)
+				h.Create(ctx, e, v.rq)
 			}
 		case "update":
 			e := event.TypedUpdateEvent[client.Object]{ObjectOld: oldObj, ObjectNew: newObj}
@@ -71,7 +77,7 @@ func (v *VerifWatchers) Dispatch(ev string, oldObj, newObj client.Object) bool {
 				}
 			}
 			if pass {
-				h.Update(ctx, e, v.q)
+				h.Update(ctx, e, v.rq)
 			}
 		case "delete":
 			e := event.TypedDeleteEvent[client.Object]{Object: newObj}
@@ -82,7 +88,7 @@ func (v *VerifWatchers) Dispatch(ev string, oldObj, newObj client.Object) bool {
 				}
 			}
 			if pass {
-				h.Delete(ctx, e, v.q)
+				h.Delete(ctx, e, v.rq)
 			}
 		case "generic":
 			e := event.TypedGenericEvent[client.Object]{Object: newObj}
@@ -93,7 +99,7 @@ func (v *VerifWatchers) Dispatch(ev string, oldObj, newObj client.Object) bool {
 				}
 			}
 			if pass {
-				h.Generic(ctx, e, v.q)
+				h.Generic(ctx, e, v.rq)
 			}
 		default:
 			panic("unknown event " + ev)
